@@ -24,7 +24,7 @@ LEVEL = "exploration"
 BATCH = 1
 TIMEOUT = 600
 REQUIRED_OBS = ["macro_sets_checked", "python_modules_executed", "summaries_checked", "enzo_tables_checked", "tag_multiply_charged", "tag_labelled",
-                "tag_ice_both_prefixes", "tag_grain_groups", "tag_excited_star", "tag_isomer_prefix", "tag_upper_replace", "tag_two_spellings"]
+                "tag_ice_both_prefixes", "tag_grain_groups", "tag_excited_star", "tag_isomer_prefix", "tag_upper_replace", "tag_two_spellings", "tag_two_grain_groups"]
 RULE = ("networks over species with multiply charged ions (up to ++++ / ---), o/p/m labels, ice species under '#' (API/KIDA) and 'G' "
         "(Leeds) prefixes, grains with group numbers, excited species (H2*), c-/l- isomers, an upper-case element list with replacement; "
         "electron and ice species spelt differently in merged files; all back-ends; CLI render for the summary, Enzo patch for the "
@@ -51,6 +51,9 @@ def make_case(rng, i):
         # grain groups have to match the surface-species groups ('#X' is group 0), otherwise naunet (rightly) refuses
         opts = [["GRAIN0", "GRAIN-"], ["GRAIN0", "GRAIN-", "GRAIN+"]] + ([] if "ice" in feats else [["GRAIN1", "GRAIN1-", "GRAIN2", "GRAIN2-"]])
         add(rng.choice(opts), "grain_groups")
+    if "ice" not in feats and "grain_groups" not in feats and rng.random() < 0.3:
+        # two grain populations with their own ice mantles: the same molecule on group 0 and on group 1 are two species
+        add(["#CO", "#1CO", "CO", "#H2O", "#1H2O", "H2O", "GRAIN0", "GRAIN-", "GRAIN1", "GRAIN1-"], "two_grain_groups")
     if rng.random() < 0.35:
         add(["H2*"], "excited_star")
     if rng.random() < 0.35:
@@ -64,9 +67,18 @@ def make_case(rng, i):
         res = [rng.choice(names) for _ in range(rng.choice([1, 2]))]
         prs = [rng.choice(names) for _ in range(rng.choice([1, 2]))]
         if any(n.startswith("GRAIN") for n in res + prs):
-            res = [n for n in res if not n.startswith("GRAIN")] or ["H+"]
+            res = [n for n in res if not n.startswith("GRAIN") and not n.startswith("#")] or ["H+"]
             g = [n for n in names if n.startswith("GRAIN")]
-            res, prs = res[:1] + [g[1]], [res[0].rstrip("+") or "H", g[0]]
+            k = 2 * rng.randrange(len(g) // 2)
+            res, prs = res[:1] + [g[k + 1]], [res[0].rstrip("+") or "H", g[k]]
+        ices = [n for n in res + prs if n.startswith("#")]
+        if len({(n[1] if n[1].isdigit() else "0") for n in ices}) > 1 or (ices and any(n.startswith("GRAIN") for n in res + prs)):
+            # a reaction involves one grain population only
+            keep = ices[0][:2] if ices[0][1].isdigit() else "#"
+            res = [n for n in res if not n.startswith("#") or (n[:2] == keep if keep != "#" else not n[1].isdigit())]
+            prs = [n for n in prs if not n.startswith("#") or (n[:2] == keep if keep != "#" else not n[1].isdigit())] or ["H"]
+            res = [n for n in res if not n.startswith("GRAIN")] or ["H"]
+            prs = [n for n in prs if not n.startswith("GRAIN")] or ["H"]
         reacs.append({"reactants": res, "products": prs, "idx": j + 1, "alpha": round(rng.uniform(0.5, 2), 3), "pseudo": None})
     used = {n for r in reacs for n in r["reactants"] + r["products"]}
     required = [n for n in names if n not in used and not n.startswith("GRAIN")]
@@ -102,6 +114,8 @@ def run_case(case, ctx):
     chemistrydata.update_binding_energy({n: 1000.0 for n in case["names"] if n.startswith("#")})
     chemistrydata.update_binding_energy({"G" + n[1:]: 1000.0 for n in case["names"] if n.startswith("#")})
     kw = {}
+    if "two_grain_groups" in case["features"]:
+        obs["tag_two_grain_groups"] += 0
     if case["upper"]:
         kw = dict(elements=list(UPPER_EL), pseudo_elements=list(UPPER_PS))
         Species._replacement = dict(UPPER_RP)          # as `naunet render` installs them, before any species is created
@@ -174,7 +188,13 @@ def run_case(case, ctx):
                     viol.append(violation("macros_not_bijective", f"{be}: compiled IDX values {sp_vals} for NSPECIES={info['NSPECIES']}"))
                 el_vals = [idx.get("IDX_ELEM_" + e) for e in py_elements]
                 if el_vals != list(range(info["NELEMENTS"])):
-                    viol.append(violation("element_macros_not_bijective", f"{be}: compiled IDX_ELEM values {el_vals} for NELEMENTS={info['NELEMENTS']}"))
+                    w = {}
+                    dupl = sorted({e for e in py_elements if py_elements.count(e) > 1})
+                    ngr = [n for n, _ in py_species if n.startswith("GRAIN") and not n.endswith(("+", "-"))]
+                    if dupl == ["GRAIN"] and len(ngr) >= 2:
+                        w["mechanism"] = "C09/neutral-grains-of-several-groups-share-element-GRAIN"
+                    viol.append(violation("element_macros_not_bijective", f"{be}: compiled IDX_ELEM values {el_vals} for NELEMENTS={info['NELEMENTS']} "
+                                          f"(elements {py_elements})", **w))
                 obs["compiled_macro_sets"] += 1
             except lab.BuildError as e:
                 viol.append(violation("emitted_code_does_not_compile", f"{be}: {e.unit}: {'; '.join(e.diagnostics()[:2])}"))
